@@ -250,7 +250,7 @@ pub fn register(t: &mut Table) {
         c11_periodic, c11_sporadic, c11_never, c11_sporadic_clone_with_jitter,
         c11_propagated_sporadic, c11_rbf_sporadic_scalar,
         c11_curve1, c11_curve2, c11_curve3, c11_curve2_plateau, c11_curve3_plateau,
-        c11_propagated_curve, c11_propagated_never, c11_extrapolating_curve,
+        c11_propagated_never,
         c11_arrival_curve_prefix_b, c11_arrival_curve_prefix_after_zero, c11_sum_of,
     );
 }
